@@ -23,6 +23,7 @@ Run:  PYTHONPATH=/verif /venv/bin/python -m rtc.c19 --tier quick --seed 0 --out 
 from __future__ import annotations
 
 import contextlib
+import re as _re
 import io
 import itertools
 import json
@@ -88,7 +89,8 @@ class TagAFilter(DocumentFilter):
     return TagAConfig
 
   def process(self, doc):
-    _append_tag(doc, self.config.tag)
+    # depends on the language of the document: shows whether document_lang was applied before the filters ran
+    _append_tag(doc, f"{self.config.tag}{doc.get_lang()}")
 
 
 class TagBFilter(DocumentFilter):
@@ -247,6 +249,13 @@ def input_documents(quick=True):
     if os.path.isfile(p):
       with open(p, "rb") as f:
         docs.append(("res-" + os.path.splitext(os.path.basename(rel))[0], typ, f.read()))
+  # malformed inputs: whatever the library does with them (reject or read as an empty document), the command does the same
+  docs += [("broken", "ttml", b"<tt xmlns='http://www.w3.org/ns/ttml'><body><div><p begin='1s'>unclosed</div></body></tt>"),
+           ("notimsc", "ttml", b"<?xml version='1.0'?><html><body>not timed text</body></html>"),
+           ("broken", "srt", b"\xff\xfe1\n00:00:01,000 --> 00:00:02,000\nbad bytes\n"),
+           ("broken", "vtt", b"NOT A WEBVTT FILE\n\n00:01.000 --> 00:02.000\ntext\n"),
+           ("broken", "scc", b"not an scc file\n\n00:00:01:00\t94zz 9420\n"),
+           ("broken", "stl", STL_OPEN[:700]), ("truncated", "stl", STL_OPEN[:1024 + 60])]
   return docs
 
 
@@ -419,10 +428,37 @@ def check_case(rec: Recorder, case: Case, docs, workdir):
   status, detail, data, _console = run_main(argv, outp)
   rec.evaluated(case.contract, case.fingerprint(), case.describe(docs))
   bad = judge(case, inp, status, detail, data)
+  if not bad and case.contract == "document_lang" and status == "ok" and data:
+    bad = _lang_check(case, data)
+  if bad and (case.alts or case.key_hint):
+    # control: the same command line with a documented configuration; if that one is wrong too, the failure is not about this value
+    control = Case(case.doc, case.in_name, case.out_name, case.itype, case.otype, case.filters,
+                   config=case.alts[0] if case.alts else None, contract=case.contract, note="control for " + case.note)
+    cargv, cinp, coutp = materialise(control, docs, os.path.join(workdir, "control"))
+    cstatus, cdetail, cdata, _ = run_main(cargv, coutp)
+    cbad = judge(control, cinp, cstatus, cdetail, cdata)
+    if cbad:
+      case, argv, status, detail, data, bad = control, cargv, cstatus, cdetail, cdata, cbad
   if bad:
     rec.fail(bad[0], case.contract, f"{bad[1]}; command line: tt {' '.join(_show_argv(argv, workdir))}", case.describe(docs),
              {"status": status, "detail": detail, "output": _short(data)}, bad[2], "replayers.c19:command_line", case.replay_args(docs))
   return status, data
+
+
+def _lang_check(case: Case, data: bytes):
+  """TTML output: the language of the document is the xml:lang of the root element"""
+  cfg = S.select_config(case.config, case.config_file) or {}
+  lang = (cfg.get("general") or {}).get("document_lang")
+  if lang is None or S.resolve_type(case.otype, case.out_name, S.OUTPUT_TYPES) != "ttml":
+    return None
+  import xml.etree.ElementTree as et
+  try:
+    got = et.fromstring(data).get("{http://www.w3.org/XML/1998/namespace}lang")
+  except et.ParseError as e:
+    return ("ttml-output-not-well-formed", f"the TTML output is not well-formed XML: {e}", "well-formed XML")
+  if got != lang:
+    return ("document_lang-not-applied", f"document_lang is {lang!r} but the output document has xml:lang={got!r}", {"xml:lang": lang})
+  return None
 
 
 def _show_argv(argv, workdir):
@@ -541,11 +577,19 @@ def _same_config(got, want, key):
   return True
 
 
-def failure_key(module, key, what):
-  if (module, key) in BOOL_KEYS and what in ("accepted", "decoded"):
+_NOVALUE = object()
+
+
+def failure_key(module, key, what, value=_NOVALUE):
+  """one key per distinct defect (witness class), not per witness"""
+  if (module, key) in BOOL_KEYS and what == "accepted":
     return "bool-field-not-validated" if module != "general" else "general.progress_bar-not-validated"
   if (module, key) == ("lcd", "safe_area") and what == "accepted":
-    return "lcd.safe_area-out-of-range-accepted"
+    num = value
+    if isinstance(value, str) and _re.match(r"\s*[+-]?[0-9]+\s*\Z", value):
+      num = int(value)
+    if isinstance(num, (int, float)) and not isinstance(num, bool) and not 0 <= num <= 30:
+      return "lcd.safe_area-out-of-range-accepted"
   return {"accepted": "undocumented-value-accepted", "rejected": "documented-value-rejected",
           "decoded": "value-decoded-wrongly"}[what] + f":{module}.{key}"
 
@@ -567,7 +611,7 @@ def check_config_value(rec: Recorder, module, key, value):
   inp = {"module": module, "key": key, "value": value}
 
   def fail(what, text, required):
-    rec.fail(failure_key(module, key, what), contract, f"{module}.{key} = {json.dumps(value)}: {text}", inp,
+    rec.fail(failure_key(module, key, what, value), contract, f"{module}.{key} = {json.dumps(value)}: {text}", inp,
              {"accepted": accepted, "result": repr(got), "error": err}, required, "replayers.c19:config_value", ra)
 
   if c[0] == "valid":
@@ -644,8 +688,6 @@ def check_config_combinations(rec: Recorder, r, count):
                  repr(want), "replayers.c19:config_section", {"module": module, "section_json": json.dumps(chosen)})
 
 
-import re as _re
-
 _PROGRESS = _re.compile(r"(Reading|Writing): \|")
 
 
@@ -656,6 +698,11 @@ def check_general_value(rec: Recorder, key, value, docs, workdir):
   di = next(i for i, d in enumerate(docs) if d[:2] == ("plain", "srt"))
   section = {key: value}
   case = Case(di, "in.srt", "out.ttml", config=json.dumps({"general": section}), contract=contract)
+  # the console handler of tt.py keeps an unfinished progress line of an earlier (failed) conversion and prints it again with the
+  # next message: first run a conversion that displays its progress up to 100 %, so that what is seen below belongs to this run
+  neutral = Case(di, "in.srt", "out.srt", config=json.dumps({"general": {"progress_bar": True, "log_level": "INFO"}}))
+  nargv, _ninp, noutp = materialise(neutral, docs, os.path.join(workdir, "neutral"))
+  run_main(nargv, noutp)
   argv, inp, outp = materialise(case, docs, workdir)
   status, detail, data, console = run_main(argv, outp)
   rec.evaluated(contract, ("general", key, json.dumps(value)), {"module": "general", "key": key, "value": value, "class": c[0]})
@@ -663,7 +710,7 @@ def check_general_value(rec: Recorder, key, value, docs, workdir):
   shown = bool(_PROGRESS.search(console))
 
   def fail(what, text, required):
-    rec.fail(failure_key("general", key, what), contract, f"general.{key} = {json.dumps(value)}: {text}",
+    rec.fail(failure_key("general", key, what, value), contract, f"general.{key} = {json.dumps(value)}: {text}",
              {"module": "general", "key": key, "value": value}, {"status": status, "detail": detail, "progress_bar_shown": shown},
              required, "replayers.c19:config_value", ra)
 
@@ -889,7 +936,7 @@ def build_cases(docs, quick, r):
       pool = keep + r.sample([p for p in pool if p not in keep], 6 - min(6, len(keep)))
     for v, alts, _ in pool:
       cases.append(Case(rich[t], f"in.{t}", f"out.{ot}", filters=fl, config=_cfg(**{module: {key: v}}, **extra), contract="config-reject-cli",
-                        note=f"{module}.{key}", alts=alts, key_hint=failure_key(module, key, "accepted")))
+                        note=f"{module}.{key}", alts=alts, key_hint=failure_key(module, key, "accepted", v)))
   # unknown sub-commands (with an otherwise valid command line)
   for t in S.INPUT_TYPES:
     for sub in ("covert", "validate", "convertt", "unconvert", "convert_", "tt"):
@@ -1006,23 +1053,32 @@ def subprocess_contracts(rec: Recorder, docs, quick, seed, root):
   seeds = [0, 1, 2, 3, 7, 42, 12345, 4294967295] if quick else [0, 1, 2, 3, 4, 5, 7, 11, 42, 99, 1000, 12345, 65535, 2 ** 31, 4294967295,
                                                                 r.randrange(2 ** 32)]
   jobs = []      # (label, kind, cases, hashseed)
-  # fresh interpreter per (command line, hash seed)
+  # fresh interpreters: every command line alone (hash seed 0: the reference "fresh" output), then per hash seed either one
+  # interpreter per command line (thorough) or one interpreter for all pairs (quick)
   for ci, c in enumerate(dcases):
-    for hs in seeds:
-      jobs.append((("hashseed", ci, hs), "worker", [c], hs))
-  # log / progress settings (their effect on stderr is real here: nothing is silenced)
-  logcases = []
+    jobs.append((("hashseed", ci, 0), "worker", [c], 0))
+  for hs in seeds[1:]:
+    if quick:
+      order = list(dcases)
+      r.shuffle(order)
+      jobs.append((("hashseed", "all", hs), "worker", order, hs))
+    else:
+      for ci, c in enumerate(dcases):
+        jobs.append((("hashseed", ci, hs), "worker", [c], hs))
+  # log / progress settings (their effect on stderr is real here: nothing is silenced); the settings of one conversion stay in
+  # force in the interpreter, so all six combinations run one after the other in one interpreter per command line
   for ci, c in enumerate(dcases):
     base = json.loads(c.config)
     combos = [(pb, lv) for pb in (True, False) for lv in ("INFO", "WARN", "ERROR")]
-    if quick:
-      combos = [combos[ci % 6], combos[(ci + 3) % 6]] if ci % 5 else combos
+    r.shuffle(combos)
+    seq = []
     for pb, lv in combos:
       cfg = dict(base)
       cfg["general"] = {"progress_bar": pb, "log_level": lv, "document_lang": "es-419"}
-      lc = Case(c.doc, c.in_name, c.out_name, filters=c.filters, config=_cfg(**cfg), contract="log-settings-independent")
-      logcases.append(lc)
-      jobs.append((("log", len(logcases) - 1, 0), "worker", [lc], r.choice(seeds)))
+      seq.append(Case(c.doc, c.in_name, c.out_name, filters=c.filters, config=_cfg(**cfg), contract="log-settings-independent"))
+    seq.append(Case(c.doc, c.in_name, c.out_name, filters=c.filters, config=_cfg(**{k: v for k, v in base.items() if k != "general"}),
+                    contract="log-settings-independent"))
+    jobs.append((("log", ci, 0), "worker", seq, r.choice(seeds)))
   # histories: the same command lines in different orders inside one interpreter, interleaved with failing ones
   hist = []
   pool = dcases + [Case(c.doc, c.in_name, c.out_name, contract="history-independent") for c in dcases] + \
@@ -1030,7 +1086,7 @@ def subprocess_contracts(rec: Recorder, docs, quick, seed, root):
             contract="history-independent") for c in dcases]
   failing = [Case(dcases[0].doc, "in.ttml", "out.pdf"), Case(dcases[0].doc, "in.ttml", "out.ttml", filters=("lcd",), config='{"lcd": {"color": "nocolor"}}'),
              Case(dcases[0].doc, "in.ttml", "out.ttml", config='{"imsc_writer": {"time_format": "frames"}}')]
-  ntriples = 6 if quick else 30
+  ntriples = 6 if quick else 60
   for k in range(ntriples):
     trio = r.sample(pool, 3)
     if k % 2 == 0:
@@ -1141,7 +1197,6 @@ def main():
   rec = Recorder("C19", SCOPE_RULE, {})
   try:
     _G.update(docs=docs, chunks=chunks, seed=args.seed, root=root)
-    import threading
     sub_rec = Recorder("C19", "", {})
     box = {}
 
@@ -1156,14 +1211,16 @@ def main():
     for module, key, v in (("srt_writer", "text_formatting", "false"), ("lcd", "safe_area", 31), ("lcd", "safe_area", -1)):
       check_config_value(rec, module, key, v)
     check_general_value(rec, "progress_bar", "false", docs, os.path.join(root, "flagship"))
-    for part in parallel(_chunk, list(range(nchunks))):
-      rec.merge(part)
-    th = threading.Thread(target=_sub)
-    th.start()
-    th.join()
+    # the in-process chunks run in forked workers while this process drives the fresh interpreters
+    import multiprocessing as mp
+    with mp.get_context("fork").Pool(nchunks) as pool:
+      pending = pool.map_async(_chunk, list(range(nchunks)))
+      _sub()
+      for part in pending.get():
+        rec.merge(part)
     rec.merge(sub_rec)
     check_config_plumbing(rec)
-    check_config_combinations(rec, rng(args.seed, "c19-combo"), 40 if quick else 400)
+    check_config_combinations(rec, rng(args.seed, "c19-combo"), 40 if quick else 1000)
   finally:
     shutil.rmtree(root, ignore_errors=True)
   rec.scope = {
